@@ -602,9 +602,14 @@ def script_walk(rng, cx, cfg, name, steps, with_rep=False, p=2, custom_ids=None)
                     ins(c)
                     did = True
         if did:
-            lines.append("DUMP")
-            if with_rep and rng.random() < 0.6:
-                lines.append("REP")
+            # mostly a full read after every step; sometimes none, so that lazily deferred work (pending row swaps,
+            # unpruned columns) is still pending when the next operation starts
+            if rng.random() < 0.78:
+                lines.append("DUMP")
+                if with_rep and rng.random() < 0.6:
+                    lines.append("REP")
+    if lines[-1] not in ("DUMP", "REP"):
+        lines.append("DUMP")
     return lines
 
 
